@@ -10,11 +10,11 @@ TECH = 'contract-based deductive verification (Verus/Z3) of function text extrac
 
 CLAIMED = {
     'C02': dict(
-        text='Deductive proof of frame conditions over the real text of MemoryLoc::{with_offset,into_value,write_val,write_all,memset}, UnwrapOrAlloca::unwrap_or_alloca the variant->enum arm of cast_into_memory, create_nil_value, the nil branch of the optional->optional arm and cast_payload_into_tagged_union (payload -> optional / error union): every store these functions emit lies inside the destination object [loc, loc+size(ty)); the register moves of the C ABI (unit abi_moves: handle_ret, build_fn Cast parameter) store register k at byte 8k of a fresh slot of the aggregate, i.e. inside rup(size, 8) bytes (and a freshly allocated slot is exactly size(ty) bytes), for all types, offsets and loop iterations.',
-        note='Partial: cast_into_memory as a whole, cast_struct_to_struct, cast_array_to_array and the ABI copy loops are not under contract -- only the store-emitting callees they use. Trusted: Cranelift store footprints (shims/verus/clif.rs), layout contracts (proved in unit layout), disjointness of distinct slots/objects, operands carry their type\'s width. "A copy is made on assignment" is only covered as "the copy writes exactly the destination".',
+        text='Deductive proof of frame conditions over the real text of MemoryLoc::{with_offset,into_value,write_val,write_all,memset}, UnwrapOrAlloca::unwrap_or_alloca the variant->enum arm of cast_into_memory, create_nil_value, the nil branch of the optional->optional arm and cast_payload_into_tagged_union (payload -> optional / error union): every store these functions emit lies inside the destination object [loc, loc+size(ty)); the register moves of the C ABI (unit abi_moves: handle_ret, build_fn Cast parameter) store register k at byte 8k of a fresh slot of the aggregate, i.e. inside rup(size, 8) bytes (and a freshly allocated slot is exactly size(ty) bytes), for all types, offsets and loop iterations. Also under contract: cast_array_to_array and cast_struct_to_struct (every element / member is converted into its own place inside the destination, nothing outside the destination is written) and the Stmt::LocalDef arm (a local lives at offset 0 of a stack slot created by its definition and exactly as large as its type, so it shares no memory with a value that was live before). BOUNDED stand-in copy_exec: generated programs run through the compiler built from the tree -- 9 aggregate types x 8 ways of copying (every leaf of one copy overwritten, the other printed), 9 guarded destinations x the listed conversions (guard bytes printed after every store, as a field and as the middle element of an array), by-value structs of 1..64 bytes.',
+        note='Partial: cast_into_memory as a whole and the ABI copy loops are not under contract -- its arms and the store-emitting callees are; the recursion is assumed to meet the frame contract. Trusted: Cranelift store footprints (shims/verus/clif.rs), layout contracts (proved in unit layout), disjointness of distinct slots/objects, operands carry their type\'s width, the by-name member map of struct casts (shim). The copy clause is proved for local definitions (fresh slot) and otherwise only checked by the bounded stand-in.',
         ref='DESIGN.md 5 (C02)'),
     'C03': dict(
-        text="Deductive proof over the real text of run_defers_to_label, break_to_label, and the lifted arms Stmt::Defer, Stmt::Continue, the start and the end of Expr::Block, the Expr::While arm and the failing branch of Expr::Propagate (`.try`), with ghost state (the sequence of expressions whose code has been emitted; the set of labels that may be jumped to): a reached defer is recorded last in the frame of its block and does not run then; when a block is left through its end the defers of its frame run there (before the jump to the exit block, which runs none), last reached first, exactly once, and the frame is gone; a break / return / failing `.try` runs the defers reached so far in the block it names and in every block nested in it, innermost first, `continue` those of the blocks inside the loop body, and the frame stack is left as it was; every labelled block and every loop has its own frame while its body is compiled (frame invariant), so unwinding stops at the construct being left and never runs defers of blocks that are not being left -- for frame stacks of any depth and any number of defers.",
+        text="Deductive proof over the real text of run_defers_to_label, break_to_label, and the lifted arms Stmt::Defer, Stmt::Continue, the start and the end of Expr::Block, the Expr::While arm and the failing branch of Expr::Propagate (`.try`), with ghost state (the sequence of expressions whose code has been emitted; the set of labels that may be jumped to): a reached defer is recorded last in the frame of its block and does not run then; when a block is left through its end the defers of its frame run there (before the jump to the exit block, which runs none), last reached first, exactly once, and the frame is gone; a break / return / failing `.try` runs the defers reached so far in the block it names and in every block nested in it, innermost first, `continue` those of the blocks inside the loop body, and the frame stack is left as it was; every labelled block and every loop has its own frame while its body is compiled (frame invariant), so unwinding stops at the construct being left and never runs defers of blocks that are not being left -- for frame stacks of any depth and any number of defers. BOUNDED stand-in defer_exec: every nest of at most 2 (quick) / 3 (thorough) constructs out of {block, labelled block, while, if} with two defers per level and one jump (break to each label, unlabelled break, continue, return, failing .try, none), taken and not taken, is compiled by the compiler built from the tree, executed, and its output compared with an interpreter of the property statement.",
         note='Partial. Four genuine defects were found on the pinned tree and repaired in /repo (break out of a loop ran all enclosing defers; continue ran none; a break to a block ran also the defers of that block that were never reached; a break inside a while condition ran all enclosing defers). Assumed: the recursive compile_expr emits the code of its expression at the insertion point and keeps its own pushes and pops balanced (stub); break / continue name only enclosing labels (hir); a deferred expression does not jump out of itself; Cranelift control flow shims. Not covered: the `return` call site, hir::lower_defer / resolve_last_label, that the emitted code of a defer runs once at run time when blocks are re-entered (loops re-run their body code, which is the intended meaning).',
         ref='DESIGN.md 5 (C03)'),
     'C08': dict(
